@@ -45,7 +45,7 @@ class Rule:
             raise EngineError(f"{self.rid}: positive control did not fire ({what}) - the rule is blind")
 
     def finish(self):
-        if self.floor is not None and self.instances < self.floor:
+        if self.floor is not None and self.instances < self.floor and not self.violations:
             raise EngineError(f"{self.rid}: only {self.instances} instances analysed, floor is {self.floor} (anchor moved? rule would pass vacuously)")
 
 
